@@ -57,6 +57,20 @@ theorem C23_accepts_strict (s b r r' : Bytes) (h : rfcDechunk false s = .ok b r)
     (hne : noExtChunks (s.length + 1) s = some r') : decode s = ⟨b, .eof, r⟩ :=
   complete_aux _ s b r h _ r' hne _ (by omega)
 
+/-- **segmentation independence**: `decodeSeg segs` is the chunked reader on a connection whose reads return the
+    pieces `segs` one after the other (cuts inside size lines, between CR and LF, inside chunk data, 1-byte pieces,
+    empty pieces: any list).  What it delivers, the error it ends with and the bytes it leaves unread are those of
+    the whole-stream reader on the concatenation — the result cannot depend on how the bytes arrive.
+    (`readLineSeg` / `takeSeg` model ReadSlice / Read / ReadFull filling the buffer piece by piece.) -/
+theorem C23_segmentation_independent (segs : List Bytes) : decodeSeg segs = decode segs.flatten := by
+  have := decodeSegAux_eq (([] ++ segs.flatten).length + 1) [] segs
+  simpa [decodeSeg, decodeSegS, decode] using this
+
+/-- the same with bytes already buffered, as the reader is started by ReadRequest in the middle of a connection -/
+theorem C23_segmentation_independent_buf (buf : Bytes) (segs : List Bytes) :
+    (decodeSegS buf segs).toRes = decode (buf ++ segs.flatten) :=
+  decodeSegAux_eq _ buf segs
+
 /-- the result does not depend on the fuel used by the executable definition -/
 theorem C23_fuel_irrelevant (s : Bytes) (f : Nat) (h : s.length < f) : decodeAux f s = decode s :=
   decodeAux_fuel f s _ h (by omega)
@@ -91,5 +105,9 @@ example : noExtChunks 16 [53, 13, 10, 104, 101, 108, 108, 111, 13, 10, 48, 13, 1
 example : rfcDechunk false [53, 13, 10, 104, 101, 108, 108, 111, 13, 10, 48, 13, 10, 13, 10] =
     .ok [104, 101, 108, 108, 111] [13, 10] := by decide
 example : noExtChunks 8 [53, 59, 97, 13, 10] = none := by decide
+
+-- "5\r\nhello\r\n0\r\n\r\n" cut inside the size line, between CR and LF, inside the data, with empty pieces
+example : decodeSeg [[53], [13], [], [10, 104, 101], [108, 108, 111, 13], [10, 48, 13], [10, 13, 10]] =
+    ⟨[104, 101, 108, 108, 111], .eof, [13, 10]⟩ := by decide
 
 end BfeVerif.C23
